@@ -7,7 +7,8 @@ use crate::{alloc_track, guard, hexs, Arg, Ctx, Guarded};
 use core::mem::{align_of, size_of, size_of_val};
 use multiboot2::{
     ApmTag, BasicMemoryInfoTag, BootInformationHeader, BootLoaderNameTag, BootdevTag, CommandLineTag,
-    EFIBootServicesNotExitedTag, EFIImageHandle32Tag, EFIImageHandle64Tag, EFIMemoryMapTag, EFISdt32Tag, EFISdt64Tag,
+    EFIBootServicesNotExitedTag, EFIImageHandle32Tag, EFIImageHandle64Tag, EFIMemoryAreaType, EFIMemoryAttribute,
+    EFIMemoryDesc, EFIMemoryMapTag, EFISdt32Tag, EFISdt64Tag,
     ElfSectionsTag, EndTag, FramebufferColor, FramebufferField, FramebufferTag, FramebufferType,
     ImageLoadPhysAddrTag, MemoryArea, MemoryMapTag, ModuleTag, NetworkTag, RsdpV1Tag, RsdpV2Tag, SmbiosTag,
     TagHeader, TagTypeId, VBEControlInfo, VBEInfoTag, VBEModeInfo,
@@ -115,7 +116,7 @@ fn precheck(id: u128, a: &[Arg]) {
             assert!(a[5].b()[27] <= 7, "harness: memory_model out of range");
         }
         14 | 15 => assert!(a[1].b().len() == 6, "harness: oem_id"),
-        0 | 4 | 5 | 6 | 8..=13 | 16..=22 => {}
+        0 | 4 | 5 | 6 | 8..=13 | 16..=23 => {}
         _ => panic!("harness: bad constructor id"),
     }
 }
@@ -197,6 +198,26 @@ fn construct(id: u128, a: &[Arg]) -> Built {
         20 => Built::Efi64Ih(EFIImageHandle64Tag::new(u64_(0))),
         21 => Built::LoadBaseAddr(ImageLoadPhysAddrTag::new(u32_(0))),
         22 => Built::Custom(new_boxed::<Generic>(TagHeader::new(TagTypeId::new(u32_(0)), 0), &[a[1].b()])),
+        23 => {
+            // EFIMemoryMapTag::new_from_descs: the descriptors live in zeroed storage and are written field by
+            // field, so the 4 padding bytes behind `ty` (which the constructor copies as raw bytes) are zero
+            let ds = a[0].l();
+            let mut v: Vec<core::mem::MaybeUninit<EFIMemoryDesc>> =
+                (0..ds.len()).map(|_| core::mem::MaybeUninit::zeroed()).collect();
+            for (i, d) in ds.iter().enumerate() {
+                let d = d.l();
+                let p = v[i].as_mut_ptr();
+                unsafe {
+                    core::ptr::addr_of_mut!((*p).ty).write(EFIMemoryAreaType(d[0].n() as u32));
+                    core::ptr::addr_of_mut!((*p).phys_start).write(d[1].n() as u64);
+                    core::ptr::addr_of_mut!((*p).virt_start).write(d[2].n() as u64);
+                    core::ptr::addr_of_mut!((*p).page_count).write(d[3].n() as u64);
+                    core::ptr::addr_of_mut!((*p).att).write(EFIMemoryAttribute::from_bits_retain(d[4].n() as u64));
+                }
+            }
+            let descs: &[EFIMemoryDesc] = unsafe { core::slice::from_raw_parts(v.as_ptr().cast(), v.len()) };
+            Built::EfiMmap(EFIMemoryMapTag::new_from_descs(descs))
+        }
         _ => unreachable!(),
     }
 }
